@@ -180,14 +180,15 @@ claim('C08',
           A2, A4, IC,
           'A3: sorted() returns a stable permutation ordered by the key (its `reverse` argument is not modelled)',
           'wiring of a group\'s entry side is stable during a neighbour call (rely of GroupPath protects it)',
-          'Group.__init__ (iterates a set), GroupInput.notify_upstream_of_available_space, GroupPath.space_available_downstream and '
-          'PartFlowController.waiting_for_part_start_time are not under contract',
+          'Group.__init__ (iterates a set), GroupInput.notify_upstream_of_available_space and GroupPath.space_available_downstream '
+          'are not under contract',
       ],
       explanation='offers go only to members of the configured downstream list in candidate order (sorted by waiting-since, None '
                   'last), first True wins; gates refuse without any other call when the predicate is False; blocked inputs refuse; a '
                   'refused hand-over removes the history entry it added and the group-stack entry it pushed; GroupOutput leaves '
                   'through the path on top of the stack and removes exactly this group\'s entry (defect found and repaired); sink '
-                  'collects in arrival order; idle stamps (waiting-for-part-since) bookkeeping; wiring symmetry pieces of set_upstream.')
+                  'collects in arrival order; a pass-through device reports the earliest idle stamp of its downstream devices (a stamp '
+                  'of 0 counts); idle stamps (waiting-for-part-since) bookkeeping; wiring symmetry pieces of set_upstream.')
 claim('C15',
       assumptions=[
           A2, A4,
@@ -232,14 +233,13 @@ claim('C20',
           'late creation is verified as "the real constructor chain, run with the active System already initialised, raises nothing '
           'and leaves the asset registered, initialised with the running environment and in its class-specific start state"; the '
           'full two-run equality with early creation + initialize is not machine-checked',
-          'sensor classes: see C19',
       ],
       explanation='System.__init__ becomes the active instance; add_asset registers with the most recent system exactly once and '
                   'initialises a late asset immediately exactly once; simulate raises for a replaced system (nothing changes), '
                   'initialises the resource manager and every registered asset exactly once, in order, on the first call only; '
                   'Asset.initialize raises on a second call; find_assets returns exactly the matching registered assets in '
                   'registration order (ghost position maps); late creation of PartHandler, PartProcessor, Buffer, Sink, PartBatcher, '
-                  'DecisionGate, Maintainer, ActionScheduler, Source verified (four defects repaired by fix: commits).')
+                  'DecisionGate, Maintainer, ActionScheduler, Source, Sensor, PeriodicSensor, OutputPartSensor verified (five defects repaired by fix: commits).')
 
 claim('C17',
       assumptions=[
